@@ -239,4 +239,5 @@ Print Assumptions C18_softqueue_refines.
 Print Assumptions C18_softqueue_enqueue_index_is_stable.
 Print Assumptions C18_softqueue_front_value_and_index.
 Print Assumptions C18_softqueue_contains_first_position.
+Print Assumptions C18_D18_unfixed_code_refuted.
 Print Assumptions C18_D18_unfixed_code_panics_for_every_block_size.
